@@ -438,6 +438,47 @@ impl Property for C04 {
                 v.push(Case { phase: Phase::Authorize, label: "write-error-at-every-offset".into(), bytes: s.clone(), chunk: 0, fault: Fault::WriteErr(k as u16) });
             }
         }
+        // every truncation offset of rich valid packets of every type, with and without the
+        // remaining length fixed up, in every phase
+        let up = vec![("k".to_string(), "v".to_string())];
+        let rich: Vec<rc::Packet> = vec![
+            rc::Packet::Connack(rc::Connack {
+                session_expiry: Some(9), receive_maximum: Some(3), maximum_qos: Some(1), retain_available: Some(true),
+                maximum_packet_size: Some(1000), assigned_client_id: Some("id".into()), topic_alias_maximum: Some(4),
+                reason_string: Some("rs".into()), user_props: up.clone(), wildcard_available: Some(true),
+                sub_ids_available: Some(true), shared_available: Some(false), server_keep_alive: Some(7),
+                response_information: Some("ri".into()), server_reference: Some("sr".into()),
+                auth_method: Some("m".into()), auth_data: Some(vec![1, 2]), ..Default::default()
+            }),
+            rc::Packet::Auth(rc::Auth { reason: 0x18, method: Some("m".into()), data: Some(vec![1, 2, 3]), reason_string: Some("r".into()), user_props: up.clone() }),
+            rc::Packet::Publish(rc::Publish {
+                dup: true, qos: 2, retain: true, topic: "a/b".into(), pid: Some(9), payload_format: Some(true),
+                message_expiry: Some(5), topic_alias: Some(2), response_topic: Some("r".into()),
+                correlation_data: Some(vec![7, 8]), user_props: up.clone(), subscription_ids: vec![1, 200],
+                content_type: Some("c".into()), payload: vec![1, 2, 3],
+            }),
+            rc::Packet::Puback(rc::Ack { pid: 2, reason: 0x10, reason_string: Some("x".into()), user_props: up.clone() }),
+            rc::Packet::Pubrec(rc::Ack { pid: 3, reason: 0x80, reason_string: Some("x".into()), user_props: up.clone() }),
+            rc::Packet::Pubrel(rc::Ack { pid: 4, reason: 0x92, reason_string: Some("x".into()), user_props: up.clone() }),
+            rc::Packet::Pubcomp(rc::Ack { pid: 3, reason: 0, reason_string: Some("x".into()), user_props: up.clone() }),
+            rc::Packet::Suback(rc::AckList { pid: 1, reason_string: Some("s".into()), user_props: up.clone(), reasons: vec![0, 1, 0x80] }),
+            rc::Packet::Unsuback(rc::AckList { pid: 1, reason_string: Some("s".into()), user_props: up.clone(), reasons: vec![0, 0x11] }),
+            rc::Packet::Disconnect(rc::Disconnect { reason: 0x8b, session_expiry: None, reason_string: Some("bye".into()), server_reference: Some("srv".into()), user_props: up.clone() }),
+        ];
+        for pkt in &rich {
+            let b = rc::encode(pkt, &rc::Form::canonical());
+            let name = pkt.name().to_lowercase();
+            for k in 1..b.len() {
+                let mut fixed = b[..k].to_vec();
+                if k >= 2 {
+                    fixed[1] = (k - 2) as u8; // all rich packets have a one-byte remaining length
+                }
+                for phase in [Phase::Connect, Phase::Authorize, Phase::Run] {
+                    v.push(Case { phase, label: format!("truncate:{name}"), bytes: b[..k].to_vec(), chunk: 0, fault: Fault::Eof(k as u16) });
+                    v.push(Case { phase, label: format!("truncate+fix-rl:{name}"), bytes: fixed.clone(), chunk: if k % 2 == 0 { 0 } else { 1 }, fault: Fault::None });
+                }
+            }
+        }
         Box::new(v.into_iter().enumerate().filter(move |(i, _)| i % workers == worker).map(|(_, c)| c))
     }
 
